@@ -429,5 +429,8 @@ DroppedOnClose == settled /\ ref.closed => alive = 0 /\ \A u \in Users : obsFlag
 
 \* liveness: activity always settles again, and every enqueued request is taken off its queue
 AlwaysSettles == []<>settled
+\* a failed attempt is followed by another AddUser (or the reason goes away / the connection closes)
+RetryEventually ==
+  \A u \in Users : (ref.told[u] /\ ref.attempt[u] \in {"f10", "f600"}) ~> (~ref.told[u] \/ ref.attempt[u] \notin {"f10", "f600"})
 EveryRequestHandled == \A u \in Users : [](~U[u].lost) /\ ((U[u].queue # <<>>) ~> (U[u].queue = <<>>))
 =============================================================================
